@@ -456,6 +456,40 @@ def plain_repeated_load(global_repo):
         shutil.rmtree(tmp, ignore_errors=True)
 
 
+def rrel_provider_options_scenario():
+    """create_rrel_scope_provider('+m:...', search_path=[...]): the options reach the model-loading provider —
+    an import found only through the search path is loaded (once) and its elements are referenced"""
+    from textx import metamodel_from_str
+    from textx.scoping.rrel import create_rrel_scope_provider
+    import shutil
+    tmp = tempfile.mkdtemp(prefix='c17o_')
+    problems = []
+    try:
+        os.makedirs(os.path.join(tmp, 'libs'))
+        os.makedirs(os.path.join(tmp, 'proj'))
+        with open(os.path.join(tmp, 'libs', 'lib.m'), 'w') as f:
+            f.write('item l1')
+        with open(os.path.join(tmp, 'proj', 'main.m'), 'w') as f:
+            f.write('import "lib.m"\nitem m1\nuse l1')
+        mm = metamodel_from_str(GRAMMAR)
+        parses = []
+        mm.register_obj_processors({'Model': lambda m: parses.append(os.path.basename(m._tx_filename))})
+        mm.register_scope_providers({'*.*': create_rrel_scope_provider('+m:items', search_path=[os.path.join(tmp, 'libs')])})
+        try:
+            m = mm.model_from_file(os.path.join(tmp, 'proj', 'main.m'))
+        except Exception as e:  # noqa
+            return ["create_rrel_scope_provider('+m:items', search_path=[libs]): main.m importing lib.m (found only "
+                    "through the search path) fails: %s: %s" % (type(e).__name__, str(e).replace(tmp, '')[:100])]
+        lib = [x for x in m._tx_model_repository.all_models if x._tx_filename.endswith('lib.m')]
+        if len(lib) != 1 or m.uses[0].ref is not lib[0].items[0]:
+            problems.append('the reference does not point into the single model of lib.m')
+        if sorted(parses) != ['lib.m', 'main.m']:
+            problems.append('files parsed: %s' % sorted(parses))
+        return problems
+    finally:
+        shutil.rmtree(tmp, ignore_errors=True)
+
+
 def global_repo_provider_scenario(global_repo):
     """GlobalRepo provider (file pattern) with roots loaded from strings: with a
     metamodel-wide global repository every registered file is parsed once, all
@@ -574,6 +608,9 @@ def main():
             chk.violation(pr, {'plain_repeated_load': gr})
         for pr in global_repo_provider_scenario(gr):
             chk.violation('GlobalRepo provider, global repository %s: %s' % (gr, pr), {'global_repo_provider': gr})
+    for pr in rrel_provider_options_scenario():
+        chk.violation(pr, {'rrel_provider_options': True})
+    chk.cov['bounds']['rrel_provider_options'] = "create_rrel_scope_provider('+m:items', search_path=[...]) (concrete)"
     chk.cov['bounds']['global_repo_provider'] = 'PlainNameGlobalRepo(pattern), two string roots + a file load, global repository on/off: concrete'
     chk.cov['bounds']['plain_repeated_load'] = 'default provider (no model loader), global repository on/off: concrete'
     if chk.cov['model_mismatches']:
@@ -588,6 +625,9 @@ def main():
 
 
 def replay(data):
+    if 'rrel_provider_options' in data:
+        pr = rrel_provider_options_scenario()
+        return bool(pr), pr
     if 'global_repo_provider' in data:
         pr = global_repo_provider_scenario(data['global_repo_provider'])
         return bool(pr), pr
